@@ -146,6 +146,8 @@ type Exec struct {
 	lastBoth   bool
 	maxDepth   int
 	depthBase  int
+	fileReader value
+	fileClosed int
 	races      []string
 }
 
